@@ -239,6 +239,19 @@ Theorem range_outside_unbuildable_partial : forall G gmul gone ginv g h Hsh v a 
 Proof. exact range_outside_unbuildable_l. Qed.
 Print Assumptions range_outside_unbuildable_partial.
 
+(* REFUTED (open finding, see report): soundness against a prover who knows the order n of g - which the
+   key owner does, n = t1*t2 is part of the secret key.  The intended statement "if range_check accepts a
+   proof whose commitment c opens to v then a <= v <= b" is false of the faithful model: for every v,
+   inside the range or not, there are public data committing to v and an answer (reduced modulo n, hence
+   positive) that passes every test. *)
+Theorem range_soundness_against_key_owner_refuted : forall G gmul gone ginv geqb g h Hsh,
+  abelian_group G gmul gone ginv -> (forall a, geqb a a = true) ->
+  forall n v a b s t r, 0 < n -> gpow G gmul gone ginv g n = gone ->
+  exists pub resp, k_c G (pub_com G pub) = commit G gmul gone ginv g h v r /\
+                   range_check G gmul gone ginv geqb g h Hsh pub a b s t resp = true.
+Proof. exact range_soundness_refuted_w. Qed.
+Print Assumptions range_soundness_against_key_owner_refuted.
+
 (* ================================================================== 5. serialisation *)
 
 Theorem iunpack_ipack : forall n s rest, ipack n = Ok s -> iunpack (s ++ rest) = Ok (n, rest).
@@ -309,6 +322,16 @@ Example c18_range_runs :
   /\ prove_and_check ev ev_mul ev_one ev_inv ev_eqb ev_g ev_h (ev_hash []) 17 18 200 18 200 40000 50000 c18_rd = Raise OutOfFuel
   /\ prove_and_check ev ev_mul ev_one ev_inv ev_eqb ev_g ev_h (ev_hash []) 201 18 200 18 200 40000 50000 c18_rd = Raise OutOfFuel
   /\ prove_and_check ev ev_mul ev_one ev_inv ev_eqb ev_g ev_h (ev_hash []) 5 18 200 18 200 40000 50000 c18_rd = Raise ValueError.
+Proof. vm_compute. repeat split. Qed.
+
+(* the refutation is not vacuous: in Z_6 (g of order 6) a proof "for" 17 is accepted against [18, 200] *)
+Example c18_forged_range_proof_accepted :
+  let rd := MkRR 2 0 0 1 0 0 0 0 (0, 0, 0) (0, 0, 0, 0) (0, 0, 0, 0) in
+  let pp := build_pair z6 z6_mul A0 z6_inv A1 A3 (fun _ _ => 7) 17 18 200 rd 0 1 0 0 in
+  let '(x, y, u, w) := generate_response (snd pp) 40000 50000 in
+  ((x <? 0) || (y <? 0)) = true /\
+  range_check z6 z6_mul A0 z6_inv z6_eqb A1 A3 (fun _ _ => 7) (fst pp) 18 200 40000 50000 (x, y, u, w) = false /\
+  range_check z6 z6_mul A0 z6_inv z6_eqb A1 A3 (fun _ _ => 7) (fst pp) 18 200 40000 50000 (x mod 6 + 6, y mod 6 + 6, u, w) = true.
 Proof. vm_compute. repeat split. Qed.
 
 Example c18_group_exists : abelian_group ev ev_mul ev_one ev_inv.
